@@ -64,7 +64,6 @@ const (
 	c20SetupE = "set -f; x=5; y=-3; e='1+2'; arr=(4 5 6)"
 	c20Setup3 = "set -f; x=5; y=-3; e=3; arr=(4 5 6)" // only used to classify a divergence
 	c20Dump   = `"|$?|$x|$y|$e|${u-U}|${arr[*]}|${!arr[*]}|${i-U}|${n-U}"`
-	c20Init   = "5|-3|1+2|U|4 5 6|0 1 2|U|U" // the dump's variable part when nothing changed
 	// the same for bash: reset before, post after each case
 	c20Reset = "x=5; y=-3; e='1+2'; arr=(4 5 6); unset u i n v; V=ERR"
 	c20Post  = `R="$V|$__st|$x|$y|$e|${u-U}|${arr[*]}|${!arr[*]}|${i-U}|${n-U}|$__e"`
